@@ -821,3 +821,30 @@ VARIANTS += [
     dict(prop="C01", name="slice-chunks-partial-without-remainder-guard", expect="RANGE-partial|nonzero:next_chunk",
          edits=[dict(file=CHF, find="        } else if *this.pos == whole_chunks && *this.remainder_len != 0 {", replace="        } else if *this.pos == whole_chunks {")]),
 ]
+
+VARIANTS += [
+    dict(prop="C19", name="reshard-iter-skips-first-item", expect="WRAP|reshard_iter:forwards",
+         edits=[dict(file=CMF, find="    reshard_stream(ctx, stream::iter(input.into_iter()), shard_picker).await\n", replace="    reshard_stream(ctx, stream::iter(input.into_iter().skip(1)), shard_picker).await\n")]),
+    dict(prop="C19", name="recv-from-shards-labels-with-own-id", expect="WRAP|recv_from_shards:labelled-with-origin",
+         edits=[dict(file=CMF, find="                .map(|origin| self.shard_recv_channel(origin).map(move |v| (origin, v))),", replace="                .map(|origin| {\n                    let me = self.shard_id();\n                    self.shard_recv_channel(origin).map(move |v| (me, v))\n                }),")]),
+    dict(prop="C19", name="reshard-iter-binds-stream-first", benign=True,
+         edits=[dict(file=CMF, find="    reshard_stream(ctx, stream::iter(input.into_iter()), shard_picker).await\n", replace="    let items = stream::iter(input.into_iter());\n    let out = reshard_stream(ctx, items, shard_picker).await;\n    out\n")]),
+]
+
+CBF = "ipa-core/src/helpers/buffers/circular.rs"
+VARIANTS += [
+    dict(prop="C14", name="ring-len-wrapped-branch-rewritten", benign=True,
+         edits=[dict(file=CBF, find="            self.capacity() + self.mask(self.write) - self.mask(self.read)", replace="            self.capacity() - (self.mask(self.read) - self.mask(self.write))")]),
+    dict(prop="C14", name="ring-len-wrapped-branch-off", expect="RING|len-and-remaining",
+         edits=[dict(file=CBF, find="            self.capacity() + self.mask(self.write) - self.mask(self.read)", replace="            self.capacity() + self.mask(self.write) - self.mask(self.read + 1)")]),
+    dict(prop="C14", name="ring-range-end-off-by-one", expect="RING|range-covers-unit-cells",
+         edits=[dict(file=CBF, find="        self.mask(ptr)..=self.mask(ptr + unit - 1)", replace="        self.mask(ptr)..=self.mask(ptr + unit)")]),
+    dict(prop="C14", name="ring-inc-wraps-at-capacity", expect="RING|inc-wraps-at-2N",
+         edits=[dict(file=CBF, find="    fn inc(&self, val: usize, delta: usize) -> usize {\n        self.wrap(val + delta)", replace="    fn inc(&self, val: usize, delta: usize) -> usize {\n        self.mask(val + delta)")]),
+    dict(prop="C14", name="ring-take-wrap-test-not-strict", expect="RING-ops|take:wrap-arms",
+         edits=[dict(file=CBF, find="        if range.end() < range.start() {", replace="        if range.end() <= range.start() {")]),
+    dict(prop="C14", name="ring-take-wrap-test-flipped-operands", benign=True,
+         edits=[dict(file=CBF, find="        if range.end() < range.start() {", replace="        if range.start() > range.end() {")]),
+    dict(prop="C14", name="ring-take-advances-by-read-size", expect="RING-ops|take:copies-what-it-consumes",
+         edits=[dict(file=CBF, find="        self.read = self.inc(self.read, delta);", replace="        self.read = self.inc(self.read, self.read_size);")]),
+]
